@@ -375,3 +375,8 @@ func TestVerif_C05(t *testing.T) {
 	kit.Run(s, "load_store_protection", kit.N{Quick: 50000, Thorough: 3000000}, c05Gen, c05Check)
 	kit.Run(s, "sbrk_sequences", kit.N{Quick: 6000, Thorough: 300000}, c05GenSbrk, c05CheckSbrk)
 }
+
+// FuzzVerif_C05: native coverage-guided fuzzing of the load/store protection check (thorough tier).
+func FuzzVerif_C05(f *testing.F) {
+	kit.Fuzz(f, "C05", "load_store_protection", c05Gen, c05Check)
+}
